@@ -277,9 +277,11 @@ fn start_recording() {
     RECORDING.store(true, Ordering::SeqCst);
 }
 
-fn stop_recording(out: &mut String) {
+fn stop_recording(out: &mut String, evs: &mut Vec<(u8, usize)>) {
     RECORDING.store(false, Ordering::SeqCst);
-    let mut evs: Vec<(u8, usize)> = vec![];
+    // copy under the lock without allocating (the allocator takes the same lock)
+    evs.clear();
+    evs.reserve(LOGCAP);
     unsafe {
         let _g = lock();
         for i in 0..LOG_N {
@@ -820,16 +822,36 @@ fn run_history<A: Atomicity>(npool: usize, ops: &[Op], out: &mut String) {
         pool.push(None);
     }
     let base_tagged = LIVE_TAGGED.load(Ordering::SeqCst);
+    let mut scratch: Vec<(u8, usize)> = Vec::with_capacity(LOGCAP);
     let mut first = true;
     for op in ops {
         if !first {
             out.push_str(" ; ");
         }
         first = false;
+        let tagged_before = LIVE_TAGGED.load(Ordering::SeqCst);
         start_recording();
         let r = catch_unwind(AssertUnwindSafe(|| exec::<A>(op, &mut pool)));
         let mut evs = String::new();
-        stop_recording(&mut evs);
+        stop_recording(&mut evs, &mut scratch);
+        // a panic formats and boxes its message while we are recording: extract the message,
+        // release the payload, and report only whether tendril memory changed hands
+        let r = match r {
+            Ok(o) => Ok(o),
+            Err(p) => {
+                let msg = if let Some(s) = p.downcast_ref::<String>() {
+                    s.clone()
+                } else if let Some(s) = p.downcast_ref::<&str>() {
+                    s.to_string()
+                } else {
+                    String::new()
+                };
+                drop(p);
+                let now = LIVE_TAGGED.load(Ordering::SeqCst);
+                evs = if now == tagged_before { "[]".to_string() } else { format!("[LIVE-CHANGED-ON-PANIC {}]", now as isize - tagged_before as isize) };
+                Err(msg)
+            },
+        };
         match r {
             Ok(o) => match o {
                 Out::Ok => out.push_str("ok"),
@@ -840,14 +862,7 @@ fn run_history<A: Atomicity>(npool: usize, ops: &[Op], out: &mut String) {
                 Out::Class(Some(c)) => out.push_str(&format!("k{}", c)),
                 Out::Bad => out.push_str("bad"),
             },
-            Err(p) => {
-                let msg = if let Some(s) = p.downcast_ref::<String>() {
-                    s.clone()
-                } else if let Some(s) = p.downcast_ref::<&str>() {
-                    s.to_string()
-                } else {
-                    String::new()
-                };
+            Err(msg) => {
                 if is_unwrap(op) && msg.contains("OutOfBounds") {
                     out.push_str("!E1");
                 } else if is_unwrap(op) && msg.contains("ValidationFailed") {
@@ -875,7 +890,7 @@ fn run_history<A: Atomicity>(npool: usize, ops: &[Op], out: &mut String) {
         *s = None;
     }
     let mut evs = String::new();
-    stop_recording(&mut evs);
+    stop_recording(&mut evs, &mut scratch);
     let live = LIVE_TAGGED.load(Ordering::SeqCst) as isize - base_tagged as isize;
     out.push_str(&format!("END {} live={}", evs, live));
     let (a, b, c, d) = errors();
